@@ -12,7 +12,7 @@ What is proved here (for every bytecode, pc, stack, …):
 * `two_pop_underflow_differs_only_when`   non-pedantic stack underflow of the two-argument control opcodes
 * `budget_differs_only_when`   the loop / jump budget formulas differ exactly when FreeType's 100 × numGlyphs clamp bites
                        (the recorded finding C03-loop-budget-glyph-count-clamp)
-* `def_capacity_differs_only_when`, `prep_initial_stack_differs_only_when`, `call_depth_limit_eq`, `instruction_cap_eq`,
+* `def_capacity_eq`, `def_capacity_differs_only_when`, `prep_initial_stack_differs_only_when`, `call_depth_limit_eq`, `instruction_cap_eq`,
   `endf_sim`, `eof_sim`
 * `control_simulation_partial`   n-step lock step, see the statement and the note above it for what is missing.
 -/
@@ -346,7 +346,11 @@ theorem budget_ft_le (n cvt glyphs : Nat) :
     have e : max 50 (10 * n) + max 50 (cvt / 10) = max (n * 10) 50 + max (cvt / 10) 50 := by omega
     rw [e]; split <;> omega
 
-/-- function table capacity: FreeType's differs from `maxp.maxFunctionDefs` (skrifa's) exactly below 64 -/
+/-- function table capacity: since fix 1409846 skrifa sizes the table like FreeType (`max(maxp.maxFunctionDefs, 64)`) -/
+theorem def_capacity_eq (n : Nat) : Interp.functionSlots n = FtControl.maxFDefsOf n := by
+  unfold FtControl.maxFDefsOf Interp.functionSlots Interp.MIN_FUNCTION_DEFS; split <;> omega
+
+/-- … the `maxp` value itself is the capacity exactly from 64 on -/
 theorem def_capacity_differs_only_when (n : Nat) : FtControl.maxFDefsOf n ≠ n ↔ n < 64 := by
   unfold FtControl.maxFDefsOf; split <;> omega
 
